@@ -22,6 +22,12 @@ type ChangelogCfg struct {
 	RetractSameTime bool
 	// ZeroTimeMix: in watermarked mode some records carry a zero event time (batch rows in a stream).
 	ZeroTimeMix bool
+	// FinalWMAlways: the script ends with a watermark above everything sent (everything buffered by event time is
+	// then released before end of stream).
+	FinalWMAlways bool
+	// RetractWeight, WMWeight: relative weights of a retraction / a watermark as the next step (insertion: 5);
+	// 0 = the default of 2.
+	RetractWeight, WMWeight int
 	// RepeatWM: a watermark message may repeat the current watermark (non-decreasing, not strictly increasing).
 	RepeatWM bool
 	// LateRecords: some insertions carry an event time at or below the last watermark sent
@@ -67,9 +73,15 @@ func GenChangelog(t *Tape, cfg ChangelogCfg) []Msg {
 		}
 		if len(retractable) > 0 {
 			wRet = 2
+			if cfg.RetractWeight > 0 {
+				wRet = cfg.RetractWeight
+			}
 		}
 		if cfg.Watermarked {
 			wWM = 2
+			if cfg.WMWeight > 0 {
+				wWM = cfg.WMWeight
+			}
 		}
 		switch t.Weighted(wIns, wRet, wWM) {
 		case 0:
@@ -128,7 +140,7 @@ func GenChangelog(t *Tape, cfg ChangelogCfg) []Msg {
 		}
 	}
 	t = outer.Block(2)
-	if cfg.Watermarked && cfg.FinalWM && t.Chance(1, 3) {
+	if cfg.Watermarked && cfg.FinalWM && (t.Chance(1, 3) || cfg.FinalWMAlways) {
 		wm += 1 + t.Draw(6)
 		msgs = append(msgs, Msg{Kind: MsgWM, ET: T(wm)})
 	}
